@@ -9,6 +9,8 @@ import NdnProofs.Props.NameGen
 import NdnGen.NameGen
 #print axioms Ndn.C09.decode_encode_name
 #print axioms Ndn.C09.normalize_wire
+#print axioms Ndn.C09.decode_accepts_exact
+#print axioms Ndn.C09.decode_overrun_rejected
 #print axioms Ndn.C09.isPrefix_iff
 #print axioms Ndn.C09.isPrefix_iff_componentwise
 #print axioms Ndn.C09.unescape_escape
@@ -73,3 +75,4 @@ import NdnGen.NameGen
 #print axioms Ndn.NameGen.decode_fuel_suffices
 #print axioms Ndn.NameGen.decode_error_of_model
 #print axioms Ndn.NameGen.decode_ok_model
+#print axioms Ndn.NameGen.decode_ok_of_model
